@@ -148,6 +148,7 @@ type prepared struct {
 	preP    probe
 	postP   probe
 	ffRes   sbx.Result
+	ffOut   string // standard output of the fault-free run, with the box directory replaced
 	ffOps   []shimOp
 	nMod    int
 	nFault  int
@@ -173,6 +174,7 @@ func prepare(setup []Step, command []string) (*prepared, error) {
 	ff := e.Box.Clone()
 	defer ff.Close()
 	p.ffRes, p.ffOps = runShim(ff, command)
+	p.ffOut = strings.ReplaceAll(p.ffRes.Stdout, filepath.Dir(ff.Work), "<box>")
 	p.post = Observe(ff)
 	p.postP = readOnlyProbe(ff)
 	for _, o := range p.ffOps {
@@ -346,8 +348,8 @@ func (p *prepared) runFaultPoint(command []string, k int) (*faultViolation, stri
 		if len(d) > 0 {
 			return mk("success-with-different-result", fmt.Errorf("the command reports success but the result differs from the fault-free result: %v", d)), class
 		}
-		if r.Stdout != p.ffRes.Stdout {
-			return mk("success-with-different-output", fmt.Errorf("the command reports success but prints %q instead of %q", clipS(r.Stdout), clipS(p.ffRes.Stdout))), class
+		if out := strings.ReplaceAll(r.Stdout, filepath.Dir(b.Work), "<box>"); out != p.ffOut {
+			return mk("success-with-different-output", fmt.Errorf("the command reports success but prints %q instead of %q", clipS(out), clipS(p.ffOut))), class
 		}
 		return nil, class
 	}
